@@ -8,7 +8,8 @@ LEAN_MODULES = ["SudsModel.Props.C08"]
 RULE = ("parameter trees (sequence/choice nesting, every optional marking, incl. empty containers) x argument "
         "vectors (every positional prefix with values/None, every keyword subset incl. duplicates and unknown "
         "names) x extraArgumentErrors; small trees exhaustively, larger sampled; non-trivial = the tree has a "
-        "choice or the vector is not the plain all-positional call; distinct = distinct (tree, vector, flag)")
+        "choice or the vector is not the plain all-positional call; distinct = distinct (tree, vector, flag)"
+        ' ; plus: bad calls with unwrapping disabled, extraArgumentErrors switched on a client in use, unknown keywords with None values and reserved-looking names')
 ASSUMPTIONS = ["ancestry items are compared by identity (`is`), modelled as unique ids",
                "Python dict preserves keyword insertion order (first leftover keyword is reported)"]
 PARTIAL = [
